@@ -471,7 +471,10 @@ def exec_cmd(env: Env, c, docs: list):
         return ["int", b.track_wire(wire_ref(env, c[2]))]
     if k == "track_wires":
         b = env.builder(c[1], C["TrackedDfg"])
-        return ["ints", b.track_wires([wire_ref(env, w) for w in c[2]])]
+        ws = [wire_ref(env, w) for w in c[2]]
+        # `track_wires(wires: Iterable[Wire])`: a list, a tuple or a one-shot iterator, chosen by the command text
+        style = len(json.dumps(c[2])) % 3
+        return ["ints", b.track_wires(ws if style == 0 else tuple(ws) if style == 1 else iter(ws))]
     if k == "track_inputs":
         return ["ints", env.builder(c[1], C["TrackedDfg"]).track_inputs()]
     if k in ("untrack_wire", "tracked_wire"):
